@@ -226,6 +226,17 @@ func init() {
 			Name: "Sc", Kind: "correspondence(scan model)",
 			Rule: "patterns/inputs as leg N (inputs ≤ 10 runes); per case the verif hooks tabulate, for every position, the single-position attempt, the candidate finder's answer and where a failed execution leaves the scan position; the Lean model (Model/Scan.lean) runs scan and naive on the tables and evaluates AttemptShape, FinderSound, AfterSound, MinLenSound (the hypotheses of acceleration_transparent); Go's find must equal the model's scan and naive, and all four hypotheses must hold on the engine's own tables",
 			N: c.N(3000, 150000), Gen: g2.next, Check: c03ScanCheck, Batch: 500,
+			// right-to-left `\Z` with a literal prefix: the finder answers (false, end) at the end although the match
+			// sits at end-1 — sound under the scan loop's reading of a false answer (FinderSkipSound), not under the
+			// stronger one the check used to evaluate
+			Corpus: []engCase{{Pattern: `abc$`, Opts: int32(regexp2.RightToLeft), Text: []rune("xabc\n"), Start: 5, Source: "corpus"},
+				{Pattern: `a+\Z`, Opts: int32(regexp2.RightToLeft), Text: []rune("baaa\n"), Start: 5, Source: "corpus"}},
+		})
+		g3 := &engGen{allowRTL: true, perPat: 6, maxLen: 12, biasFind: true}
+		core.RunLeg(c, core.Leg[engCase]{
+			Name: "Fm", Kind: "correspondence(finder models)",
+			Rule: "patterns/inputs as leg N (inputs ≤ 12 runes, valid UTF-8; the \\G origin anywhere in the input for half of the cases) plus a hand-made corpus (each anchor bit in both directions with the origin inside the input, \\Z's two positions, short inputs) and a small-scope exhaustive part: 38 patterns chosen to reach every path and helper, each on ALL inputs up to 4 (thorough: 6) runes over 2-5 runes taken from the pattern, \\G patterns with every origin; per case the facts findFirstCharDefault reads of the compiled program (anchor bits, Boyer-Moore prefix and case flag, find mode with its prefixes / distances / fixed-distance sets / literal after loop / landmark chain, first-character set, MinRequiredLength; every character set as a membership table over the runes of the input, unicode.ToLower as a table) go to the Lean driver, which runs the model of findFirstCharDefault (Model/Finders.lean) from every position 0..len; the real finder is called at every position through VerifFindFirstChar; (found, position left) and the dispatch path must agree. non-trivial = non-empty input; histogram: finder=<path>:<find mode> per case",
+			N: c.N(4000, 200000), Corpus: append(append([]engCase{}, fmCorpus...), fmDirected(c.N(4, 6))...), Gen: fmGen(g3), Check: c03FindersCheck, Batch: 500,
 		})
 	})
 }
